@@ -21,6 +21,8 @@ type runCfg struct {
 	// first election; "commit-lagging" = additionally one client request committed on a bare
 	// majority that excludes the highest-numbered server (whose AppendEntries is still in flight).
 	Seed string
+	// Delays > 0: a delay-bounded phase (specstep/delay.go) follows the breadth-first phase
+	Delays int
 }
 
 func build(cfg runCfg) (*ss.System, error) { return raftkvs.Build(cfg.Config, cfg.Seed, nil) }
@@ -67,16 +69,16 @@ func TestCheck(t *testing.T) {
 		put := [][]raftkvs.Req{{{Type: "put", Key: "k", Value: "v"}}}
 		put2 := [][]raftkvs.Req{{{Type: "put", Key: "k", Value: "v1"}, {Type: "put", Key: "k", Value: "v2"}}}
 		cfgs := []runCfg{
-			{raftkvs.Config{NumServers: 2, NumClients: 1, MaxTerm: 3, MaxCommitIndex: 3, FIFO: true, Budgeted: true, Requests: put}, 0, ""},
-			{raftkvs.Config{NumServers: 2, NumClients: 1, MaxTerm: 4, MaxCommitIndex: 3, FIFO: true, Budgeted: true, Requests: put, ExploreFail: true, MaxNodeFail: 1}, 1, "elect"},
-			{raftkvs.Config{NumServers: 3, NumClients: 1, MaxTerm: 4, MaxCommitIndex: 3, FIFO: true, Budgeted: true, Requests: put}, 1, "commit-lagging"},
-			{raftkvs.Config{NumServers: 3, NumClients: 1, MaxTerm: 4, MaxCommitIndex: 4, FIFO: true, Budgeted: true, Requests: put2}, 1, "commit2-lagging"},
+			{raftkvs.Config{NumServers: 2, NumClients: 1, MaxTerm: 3, MaxCommitIndex: 3, FIFO: true, Budgeted: true, Requests: put}, 1, "", 0},
+			{raftkvs.Config{NumServers: 2, NumClients: 1, MaxTerm: 4, MaxCommitIndex: 3, FIFO: true, Budgeted: true, Requests: put, ExploreFail: true, MaxNodeFail: 1}, 1, "elect", 2},
+			{raftkvs.Config{NumServers: 3, NumClients: 1, MaxTerm: 4, MaxCommitIndex: 3, FIFO: true, Budgeted: true, Requests: put}, 1, "commit-lagging", 3},
+			{raftkvs.Config{NumServers: 3, NumClients: 1, MaxTerm: 4, MaxCommitIndex: 4, FIFO: true, Budgeted: true, Requests: put2}, 1, "commit2-lagging", 3},
 		}
 		if env.Thorough() {
 			cfgs = append(cfgs,
-				runCfg{raftkvs.Config{NumServers: 3, NumClients: 1, MaxTerm: 3, MaxCommitIndex: 3, FIFO: true, Budgeted: true, Requests: put, ExploreFail: true, MaxNodeFail: 1}, 1, ""},
-				runCfg{raftkvs.Config{NumServers: 3, NumClients: 1, MaxTerm: 4, MaxCommitIndex: 3, FIFO: true, Budgeted: true, Requests: put, ExploreFail: true, MaxNodeFail: 1}, 2, "commit-lagging"},
-				runCfg{raftkvs.Config{NumServers: 2, NumClients: 1, MaxTerm: 4, MaxCommitIndex: 3, FIFO: true, Budgeted: true, Requests: put, ExploreFail: true, MaxNodeFail: 1}, 2, ""})
+				runCfg{raftkvs.Config{NumServers: 3, NumClients: 1, MaxTerm: 3, MaxCommitIndex: 3, FIFO: true, Budgeted: true, Requests: put, ExploreFail: true, MaxNodeFail: 1}, 1, "", 3},
+				runCfg{raftkvs.Config{NumServers: 3, NumClients: 1, MaxTerm: 4, MaxCommitIndex: 3, FIFO: true, Budgeted: true, Requests: put, ExploreFail: true, MaxNodeFail: 1}, 2, "commit-lagging", 4},
+				runCfg{raftkvs.Config{NumServers: 2, NumClients: 1, MaxTerm: 4, MaxCommitIndex: 3, FIFO: true, Budgeted: true, Requests: put, ExploreFail: true, MaxNodeFail: 1}, 2, "", 3})
 		}
 		// each instance gets an equal share of the time budget; a capped instance reports the depth it completed
 		var share time.Duration
@@ -104,10 +106,31 @@ func TestCheck(t *testing.T) {
 				exhaustive = false
 				continue
 			}
-			r := sys.BFS(ss.BFSOptions{Workers: env.Workers, Deadline: time.Now().Add(share), Constraint: cfg.Constraint, MaxDev: cfg.MaxDev, Invariants: cfg.Invariants(),
+			r := sys.BFS(ss.BFSOptions{Workers: env.Workers, Deadline: time.Now().Add(map[bool]time.Duration{true: share / 2, false: share}[cfg.Delays > 0]), Constraint: cfg.Constraint, MaxDev: cfg.MaxDev, Invariants: cfg.Invariants(),
 				EdgeInvs: []func(*ss.State, int, *ss.Attempt) (string, string){cfg.LeaderAppendOnly}, FailedIsViolation: true})
 			if r.MemoMismatch > 0 {
 				t.Fatalf("transition memo disagrees with the real code (harness bug or nondeterministic step): %s", r.MemoFirstMismatch)
+			}
+			var dstat any
+			if cfg.Delays > 0 {
+				agg := map[string]any{}
+				var nodes, dist, steps int64
+				depth, exh := 0, true
+				orders := sys.Orders()
+				for oi, ord := range orders {
+					d := sys.DelayBounded(ss.DelayOptions{MaxDelays: cfg.Delays, MaxDev: cfg.MaxDev, MaxDepth: 400, Order: ord, Workers: env.Workers,
+						Deadline: time.Now().Add(share / 2 / time.Duration(len(orders)-oi)), Constraint: cfg.Constraint, Invariants: cfg.Invariants(),
+						EdgeInvs: []func(*ss.State, int, *ss.Attempt) (string, string){cfg.LeaderAppendOnly}, FailedIsViolation: true})
+					if d.MemoMismatch > 0 {
+						t.Fatalf("transition memo disagrees with the real code: %s", d.MemoFirstMismatch)
+					}
+					nodes, dist, steps = nodes+d.States, dist+d.DistinctStates, steps+d.Transitions
+					depth, exh = max(depth, d.Depth), exh && d.Exhaustive
+					r.Violations = append(r.Violations, d.Violations...)
+				}
+				trans += steps
+				agg["delays"], agg["nodes"], agg["distinct_states"], agg["steps"], agg["depth"], agg["exhaustive_within_bounds"] = cfg.Delays, nodes, dist, steps, depth, exh
+				dstat = agg
 			}
 			states += r.States
 			trans += r.Transitions
@@ -132,7 +155,7 @@ func TestCheck(t *testing.T) {
 				nConf++
 			}
 			validated += int64(nConf)
-			per = append(per, map[string]any{"config": cfg, "states": r.States, "transitions": r.Transitions, "depth": r.Depth, "disabled_attempts": r.Disabled, "error_edges": r.ErrorEdges, "outside_constraint": r.NotExpanded, "states_per_deviation_round": r.DevRounds, "over_budget_transitions": r.OverBudget, "memo_hits": r.MemoHits, "memo_misses_executed_on_real_code": r.MemoMisses, "memo_hits_rechecked_on_real_code": r.MemoChecks, "memo_mismatches": r.MemoMismatch, "unconfirmed_violations_dropped": r.Unconfirmed, "tree_leaves": len(r.Leaves), "leaf_paths_replayed_live": nConf, "exhaustive": r.Exhaustive, "cap": r.Cap, "wall_s": r.WallS})
+			per = append(per, map[string]any{"config": cfg, "states": r.States, "transitions": r.Transitions, "depth": r.Depth, "disabled_attempts": r.Disabled, "error_edges": r.ErrorEdges, "delay_bounded": dstat, "outside_constraint": r.NotExpanded, "states_per_deviation_round": r.DevRounds, "over_budget_transitions": r.OverBudget, "memo_hits": r.MemoHits, "memo_misses_executed_on_real_code": r.MemoMisses, "memo_hits_rechecked_on_real_code": r.MemoChecks, "memo_mismatches": r.MemoMismatch, "unconfirmed_violations_dropped": r.Unconfirmed, "tree_leaves": len(r.Leaves), "leaf_paths_replayed_live": nConf, "exhaustive": r.Exhaustive, "cap": r.Cap, "wall_s": r.WallS})
 			for _, v := range r.Violations {
 				if !seen[v.Key] {
 					seen[v.Key] = true
